@@ -2,26 +2,26 @@
 """Regenerates /verif/MANIFEST.json from the table below (kept next to the checks so it stays current)."""
 import json, sys
 claimed = {
- "C01": ("Bounded symbolic model checking of the real parse->generate->VM pipeline against a reference backtracking matcher: for every program shape of the listed family and every ASCII text up to the stated length (and symbolic literal bytes) the solver shows the span lists equal, or returns a concrete (program, text) that is replayed natively.", "5/C01"),
- "C02": ("Same technique; per reported match the Variables map must have exactly the bindings of the reference matcher's successful path, with the bound text; back-reference shapes compare spans too.", "5/C02"),
- "C03": ("Assertions on the real output alone (offset bounds, Value==text[Start:End], order, non-overlap, MatchNumber, line/column recomputed from the symbolic text, variables substrings) for every text up to the bound, all 256 byte values for the offset claims.", "5/C03"),
- "C04": ("Relational check on the real engine: the five amount clauses with symbolic s,t,n in [0,4] must return windows of the sequence found by 'all', field by field incl. MatchNumber; amount parsing checked on the real lexer/parser with symbolic digits.", "5/C04"),
- "C05": ("Replacement compared with the concatenation of the with-items evaluated on the same match record for every text up to the bound; replace vs find agreement.", "5/C05"),
- "C06": ("The real RunFiles is executed symbolically over a model file system (os calls redirected to an in-memory model honouring the POSIX/io contracts) for every file content up to the bound, symbolic replace mode and a stale .vored file; the final file system is compared with the exact splice and the per-mode footprint.", "5/C06"),
- "C07": ("One inductive step of the real BufferedFile.Seek/Read from an arbitrary invariant-satisfying window state over an abstract file of symbolic size (covers every file size below 2^40 and every seek/read history), NewBufferedFile and files.Reader lemmas, and whole-pipeline agreement RunFiles vs Run for small files.", "5/C07"),
- "C08": ("Every implicit run-time check of the real lexer, parser, regex sub-parser and generator is a solver query over arbitrary bytes / arbitrary token-type sequences up to the bound (plus corpus prefixes reaching deep states); hangs are unwinding-assertion failures; accepted ASTs are walked for holes.", "5/C08"),
- "C09": ("Every implicit run-time check (index, slice, nil, division, type assertion) and explicit panic of the real code is a solver query on every explored path; boundary programs x all texts up to the bound.", "5/C09"),
- "C10": ("Unwinding assertion on the real VM loop: every path over the nullable-body family must return within a budget two orders of magnitude above the measured maximum; exhausted budgets are replayed natively under a timeout.", "5/C10"),
- "C11": ("The real evaluator (executeExpression) is executed symbolically against the documented operator/coercion table with symbolic operator, operand kinds and values (64-bit ints, symbolic strings, bools); the real Pratt parser is checked against the documented precedence levels for all operator sequences up to the bound.", "5/C11"),
- "C12": ("The real checker is compared with the documented typing table (accept iff listed, inferred type, accepted code evaluates to that type) for every operator x operand-type combination, and with a reference statement checker over skeleton x expression-menu programs in both contexts through the real Compile.", "5/C12"),
- "C14": ("Real Compile+Run of regex literals against an independent backtracking regex engine written in the harness (own parser, groups numbered by opening parenthesis) on every ASCII text up to the bound: spans and group bindings.", "5/C14"),
- "C15": ("Relational check through the real lexer and parser: for every gap of every corpus program (symbolic index) and every filler kind the program stays accepted with an identical syntax tree; comment bodies and keyword letter case are symbolic.", "5/C15"),
- "C16": ("The real lexer on quote + arbitrary ASCII bytes + quote (every spelling of every string that fits the bound) against refUnescape; API level: the compiled literal matches exactly the spelled text among all texts of that length.", "5/C16"),
+ "C01": ("Bounded symbolic model checking of the real parse->generate->VM pipeline against a reference backtracking matcher: for every program shape of the listed family and every ASCII text up to the stated length (and symbolic literal bytes) the solver shows the span lists equal, or returns a concrete (program, text) that is replayed natively. Families: hand-written shapes, a generated quantifier x quantifier x position family (900 programs), an enumerated grammar family addressed by index (68 400 programs, sampled per tier), and programs with closed-form answers on long texts u^k t with k symbolic around powers of two.", "5/C01, 8.14, 8.15"),
+ "C02": ("Same technique; per reported match the Variables map must have exactly the bindings of the reference matcher's successful path, with the bound text; back-reference shapes compare spans too. Families include a generated family of captures behind choice points in abandoning contexts (149 programs) and the enumerated grammar family (sampled).", "5/C02, 8.14, 8.15"),
+ "C03": ("Assertions on the real output alone (offset bounds, Value==text[Start:End], order, non-overlap, MatchNumber, line/column recomputed from the symbolic text, variables substrings) for every text up to the bound, all 256 byte values for the offset claims. Also: the generated capture family under these assertions, and closed-form offsets/lines/columns on texts of k lines with k symbolic around powers of two.", "5/C03, 8.14, 8.15"),
+ "C04": ("Relational check on the real engine: the five amount clauses with symbolic s,t,n in [0,4] must return windows of the sequence found by 'all', field by field incl. MatchNumber; amount parsing checked on the real lexer/parser with symbolic digits. Large windows: k matches with k symbolic in a window around 64 (thorough 0..140) and amounts symbolic up to 36 (thorough 70).", "5/C04, 8.14"),
+ "C05": ("Replacement compared with the concatenation of the with-items evaluated on the same match record for every text up to the bound; replace vs find agreement. Bodies include captures reached through named patterns, inline subroutines and counted loops.", "5/C05, 8.14"),
+ "C06": ("The real RunFiles is executed symbolically over a model file system (os calls redirected to an in-memory model honouring the POSIX/io contracts) for every file content up to the bound, symbolic replace mode and a stale .vored file; the final file system is compared with the exact splice and the per-mode footprint. Large files: gaps between matches symbolic among classes around half and whole read buffer, modes NEW and OVERWRITE.", "5/C06, 8.14"),
+ "C07": ("One inductive step of the real BufferedFile.Seek/Read from an arbitrary invariant-satisfying window state over an abstract file of symbolic size (covers every file size below 2^40 and every seek/read history), NewBufferedFile and files.Reader lemmas, and whole-pipeline agreement RunFiles vs Run for small files. Through the public API: RunFiles vs Run for multi-command programs, files named twice, modes NOTHING/NEW, and one engine read of n bytes for every n up to 300 and around powers of two up to 8193.", "5/C07, 8.14"),
+ "C08": ("Every implicit run-time check of the real lexer, parser, regex sub-parser and generator is a solver query over arbitrary bytes / arbitrary token-type sequences up to the bound (plus corpus prefixes reaching deep states); hangs are unwinding-assertion failures; accepted ASTs are walked for holes. Process code: statement skeletons whose holes are variables (assignment chains inside loops) through Compile.", "5/C08, 8.14"),
+ "C09": ("Every implicit run-time check (index, slice, nil, division, type assertion) and explicit panic of the real code is a solver query on every explored path; boundary programs x all texts up to the bound. RunFiles over the model file system: single and multi-command programs x contents incl. the empty file x modes x file named twice.", "5/C09, 8.14"),
+ "C10": ("Unwinding assertion on the real VM loop: every path over the nullable-body family must return within a budget two orders of magnitude above the measured maximum; exhausted budgets are replayed natively under a timeout. The family also holds guarded recursion: every atom kind (incl. negated classes and lists) in front of every form of a recursive call.", "5/C10, 8.14"),
+ "C11": ("The real evaluator (executeExpression) is executed symbolically against the documented operator/coercion table with symbolic operator, operand kinds and values (64-bit ints, symbolic strings, bools); the real Pratt parser is checked against the documented precedence levels for all operator sequences up to the bound. Source level, exported entry points only: expressions written in a transform, compiled by Compile and evaluated by Run on a symbolic text, symbolic operator, operands as string / parsed number / comparison / matchLength; the white-box groups are optional deepening.", "5/C11, 8.15"),
+ "C12": ("The real checker is compared with the documented typing table (accept iff listed, inferred type, accepted code evaluates to that type) for every operator x operand-type combination, and with a reference statement checker over skeleton x expression-menu programs in both contexts through the real Compile. Relational, no oracle: a source with two definitions sharing variable names is accepted exactly when each is accepted alone. The groups that call the checker directly are optional deepening.", "5/C12, 8.14, 8.15"),
+ "C14": ("Real Compile+Run of regex literals against an independent backtracking regex engine written in the harness (own parser, groups numbered by opening parenthesis) on every ASCII text up to the bound: spans and group bindings. Regex list includes adjacent variable-length groups whose division of the text is decided by a back-reference.", "5/C14, 8.14"),
+ "C15": ("Relational check through the real lexer and parser: for every gap of every corpus program (symbolic index) and every filler kind the program stays accepted with an identical syntax tree; comment bodies and keyword letter case are symbolic. Fillers longer than the lexer's read buffer: every length in a window around 4096 (thorough also 2048, 8192).", "5/C15, 8.14"),
+ "C16": ("The real lexer on quote + arbitrary ASCII bytes + quote (every spelling of every string that fits the bound) against refUnescape; API level: the compiled literal matches exactly the spelled text among all texts of that length. Literals longer than the lexer's read buffer with three arbitrary bytes straddling the buffer boundary at every alignment.", "5/C16, 8.15"),
  "C17": ("The real Json/FormattedJson/MarshalJSON code is executed symbolically with encoding/json replaced by a type-directed codec stub that honours the Marshaler contract; both renderings are parsed back and compared with the in-memory matches for every ASCII text (incl. quotes, backslashes, control characters) up to the bound. Reduced form: byte-level escaping of the real encoder is outside the claim.", "5/C17, 6"),
- "C18": ("The real main() is executed symbolically under a flag/exit/stdout/file-system model over the cross product of documented flag values (booleans symbolic); exit status, stdout JSON, JSON files and per-mode file effects are asserted; counterexamples are replayed against the built binary. Reduced form: argv parsing and process plumbing are modelled.", "5/C18, 6"),
+ "C18": ("The real main() is executed symbolically under a flag/exit/stdout/file-system model over the cross product of documented flag values (booleans symbolic); exit status, stdout JSON, JSON files and per-mode file effects are asserted; counterexamples are replayed against the built binary. Reduced form: argv parsing and process plumbing are modelled. Every emitted document is compared with the in-memory matches of the library call (not only with the library's own rendering); programs include an empty replacement; pre-existing output files.", "5/C18, 6, 8.14"),
  "C19": ("(1) Footprint/lockset analysis over all explored paths of Compile and Run: no write into the shared compiled program; every written package-level variable, init-time heap object/map and object published into shared memory is consistently protected by one mutex; since libvore starts no goroutines, empty write footprints cover all interleavings. (2) Two-thread symbolic scheduler over the real code: Compile||Compile for all pairs of 8 sources and Run||Run||Compile on a shared program, a symbolic switch decision at every synchronisation point (<= 3 preemptions), each call must return its sequential result. Counterexamples are confirmed natively under the race detector.", "5/C19, 8.13"),
- "C20": ("The real segment matcher against the recursive definition of '*' with every pattern/name byte symbolic, and the real ParsePath/GetFileList over the model file system with symbolic entry names and is-directory bits.", "5/C20"),
- "C13": ("Relational check real-vs-real: named (inline subroutine / global pattern) and written-out sources must give equal matches on every text up to the bound; repeated Run, recompilation, and a write-footprint check (bytecode frozen during Run).", "5/C13"),
+ "C20": ("The real segment matcher against the recursive definition of '*' with every pattern/name byte symbolic, and the real ParsePath/GetFileList over the model file system with symbolic entry names and is-directory bits. Depth-3 trees with symbolic kind of every entry and 1..3-segment patterns, relative and absolute (below the working directory).", "5/C20, 8.14, 8.15"),
+ "C13": ("Relational check real-vs-real: named (inline subroutine / global pattern) and written-out sources must give equal matches on every text up to the bound; repeated Run, recompilation, and a write-footprint check (bytecode frozen during Run). Process code: two definitions sharing variable names with one command each; the combined result is the concatenation of the results alone.", "5/C13, 8.15"),
 }
 na = {
 }
